@@ -202,24 +202,36 @@ def stream(tier):
 
 
 # ------------------------------------------------------------------ end to end: negotiated interval reaches the writer
-def run_server_e2e(kind, ka, hint, t_init_ms, horizon_ms):
-    """A real server under the scheduler: init request (with hint) delivered at t_init, then idle. Returns [(t_ms, line)]."""
+def run_server_e2e(kind, ka, hint, t_init_ms, horizon_ms, init_takes_ms=0):
+    """A real server under the scheduler: init request (with hint) delivered at t_init, `initialize()` taking init_takes_ms of
+    virtual time, then idle. Returns [(t_ms, line)], keep_alive afterwards, [(t_ms, interval the writer was given)]."""
     import lightstreamer_adapter.server as S
     from lightstreamer_adapter.interfaces.data import DataProvider
     from lightstreamer_adapter.interfaces.metadata import MetadataProvider
     sched = shim.Sched(lambda names, ops: names[0])
     sock = shim.Socket()
     saved = shim.install(sched, sock)
+    changes = []
+    orig_change = S._Sender.change_keep_alive
+
+    def change(self, keepalive, *a, **k):
+        changes.append((int(round(sched.clock * 1000)), keepalive))
+        return orig_change(self, keepalive, *a, **k)
+    S._Sender.change_keep_alive = change
+
+    def slow():
+        if init_takes_ms:
+            shim.TimeShim.sleep(init_takes_ms / 1000)
     try:
         class D(DataProvider):
-            def initialize(self, p, c): pass
+            def initialize(self, p, c=None): slow()
             def set_listener(self, l): pass
             def issnapshot_available(self, i): return True
             def subscribe(self, i): pass
             def unsubscribe(self, i): pass
 
         class M(MetadataProvider):
-            pass
+            def initialize(self, p, c=None): slow()
         srv = (S.DataProviderServer(D(), ("p", 1), keep_alive=ka, thread_pool_size=1) if kind == "data"
                else S.MetadataProviderServer(M(), ("p", 1), keep_alive=ka, thread_pool_size=1))
         line = "7|%s|S|ARI.version|S|1.9.1%s\r\n" % ("DPI" if kind == "data" else "MPI",
@@ -235,8 +247,9 @@ def run_server_e2e(kind, ka, hint, t_init_ms, horizon_ms):
         sched.spawn("D", proxy)
         h = sched.spawn("Z", horizon)
         sched.run(until=lambda: h.done)
-        return [(int(round(t * 1000)), b.decode()) for t, b in sock.sent], srv.keep_alive
+        return [(int(round(t * 1000)), b.decode()) for t, b in sock.sent], srv.keep_alive, changes
     finally:
+        S._Sender.change_keep_alive = orig_change
         sched.teardown()
         shim.uninstall(saved)
 
@@ -254,8 +267,10 @@ def stream_e2e(tier):
         ka = R.choice([None, 0, -1, 0.25, 0.5, 1, 2.5, 5, 12])
         hint = R.choice([None, "0", "-5", "300", "999.5", "1000", "2500", "7000", "10000", "12000", "60000"])
         t_init = R.choice([0, 100, 400, 1500])
-        horizon = t_init + R.choice([3000, 12000, 25000])
-        out, ka_after = run_server_e2e(kind, ka, hint, t_init, horizon)
+        init_takes = R.choice([0, 0, 700, 3200])                     # a slow `initialize()` is legal
+        horizon = t_init + init_takes + R.choice([3000, 12000, 25000])
+        out, ka_after, changes = run_server_e2e(kind, ka, hint, t_init, horizon, init_takes)
+        t_init += init_takes                                         # when the init request has been processed
         res.traces += 1
         res.evaluations += 1
         res.nontrivial.add((kind, ka, hint, t_init, horizon))
@@ -269,7 +284,18 @@ def stream_e2e(tier):
                   "%d:k:%d" % (t_init, keff), "%d:p:%s" % (t_init, C.hx("7|%s|S|ARI.version|S|1.8.3" % M))]
         ops.append("sender f %d %d %s" % (k0, horizon, " ".join(events)))
         impl.append("ok " + " ".join("%d:%s" % (t, C.hx(l[:-2])) for t, l in out))
-        inp = {"kind": kind, "keep_alive": ka, "hint": hint, "init_at_ms": t_init, "horizon_ms": horizon}
+        inp = {"kind": kind, "keep_alive": ka, "hint": hint, "init_processed_at_ms": t_init, "initialize_takes_ms": init_takes, "horizon_ms": horizon}
+        # oracle: from the moment the writer is given a positive interval K, the connection is never silent longer than K
+        for tc, k in changes:
+            kms = int(round(k * 1000))
+            later = [c for c in changes if c[0] > tc]
+            until = min([horizon] + [c[0] for c in later])
+            if kms > 0:
+                nxt = min([t for t, _ in out if t >= tc] + [horizon])
+                if min(nxt, until) - tc > kms:
+                    res.violation("silent-after-interval-change", "the writer was given the interval %d ms at %d ms (keep_alive=%r, hint=%r, initialize() takes "
+                                  "%d ms) but nothing was written until %d ms" % (kms, tc, ka, hint, init_takes, nxt), inp)
+                    break
         # oracle: after the init reply, consecutive writes are at most the negotiated interval apart
         after = [t for t, l in out if t >= t_init]
         if keff > 0:
